@@ -47,6 +47,8 @@ struct Config {
     std::vector<int> waiter_script; // SCRIPT: choice index for successive notify_one calls
     unsigned guided_kinds = 0;      // GUIDED: bit (1 << kind) set for counted kinds
     bool spurious = false;          // allow spurious condition-variable wake-ups
+    bool post_points = false;       // extra scheduling decision right after every unlock / notify: lets another thread run between a
+                                    // visible operation and the plain memory accesses that follow it (e.g. a member read after an enqueue)
     long max_steps = 2000000;       // livelock guard
 };
 
